@@ -223,10 +223,8 @@ Qed.
 
 Definition span_ok (lim : N) (sp : N * N) : Prop := fst sp <= snd sp /\ snd sp <= lim.
 
-Lemma span_mono lim lim' es : lim <= lim' -> Forall (span_ok lim) es -> Forall (span_ok lim') es.
-Proof.
-  intros Hle. apply Forall_impl. intros sp [H1 H2]. split; [exact H1|lia].
-Qed.
+Lemma span_ok_mono lim lim' sp : lim <= lim' -> span_ok lim sp -> span_ok lim' sp.
+Proof. intros Hle [H1 H2]. split; [exact H1|lia]. Qed.
 
 Lemma lex_err_span_bound e t start sp :
   lex_err_span e t start = Some sp -> span_ok (start + tok_len t) sp.
@@ -242,52 +240,70 @@ Proof.
     lia.
 Qed.
 
+Lemma printed_app (a b : list ltok) : printed (a ++ b) = printed a ++ printed b.
+Proof. rewrite map_app, concat_app. reflexivity. Qed.
+
+(* the invariant of the parser machine on the token stream `ts`: what the builder holds, the stream
+   and the tokens set aside are together `ts`; error spans lie inside the printed `ts`; while tokens
+   are set aside the stream is empty *)
 Definition pinv (ts : list ltok) (s : pstate) : Prop :=
   exists consumed,
-    consumed ++ p_stream s = ts /\
+    consumed ++ p_stream s ++ deferred_list (p_deferred s) = ts /\
     inv (p_builder s) (printed consumed) (map fst consumed) /\
-    Forall (span_ok (b_text_len (p_builder s))) (p_errors s).
+    Forall (span_ok (N.of_nat (length (printed ts)))) (p_errors s) /\
+    (forall d, p_deferred s = Some d -> p_stream s = []).
+
+Lemma pinv_len ts s : pinv ts s ->
+  b_text_len (p_builder s) + N.of_nat (length (printed (p_stream s))) +
+  N.of_nat (length (printed (deferred_list (p_deferred s)))) = N.of_nat (length (printed ts)).
+Proof.
+  intros (consumed & Hc & (_ & _ & _ & Ht) & _).
+  rewrite <- Hc, !printed_app, !app_length, Ht. unfold byte in *. lia.
+Qed.
+
+Lemma pinv_len_cons ts s t e rest : pinv ts s -> p_stream s = (t, e) :: rest ->
+  b_text_len (p_builder s) + tok_len t <= N.of_nat (length (printed ts)).
+Proof.
+  intros Hp Es. pose proof (pinv_len ts s Hp) as HL. rewrite Es in HL.
+  cbn [map concat fst] in HL. rewrite app_length in HL.
+  pose proof (tok_len_bytes t) as Ht. unfold byte in *. lia.
+Qed.
 
 Lemma lift_b_pinv ts o s s' :
   op_bytes o = [] -> op_leaves o = [] -> op_ok o = true ->
-  lift_b (b_step o (p_builder s)) s = POk s' -> pinv ts s ->
-  pinv ts s' /\ b_text_len (p_builder s) <= b_text_len (p_builder s').
+  lift_b (b_step o (p_builder s)) s = POk s' -> pinv ts s -> pinv ts s'.
 Proof.
-  intros Hb Hl Hok H (consumed & Hc & Hi & He).
+  intros Hb Hl Hok H (consumed & Hc & Hi & He & Hd).
   destruct (b_step o (p_builder s)) as [b|] eqn:E; [|discriminate]. cbn [lift_b] in H. injection H as <-.
   pose proof (b_step_inv _ _ _ _ _ Hok E Hi) as Hi'. rewrite Hb, Hl, !app_nil_r in Hi'.
-  assert (Heq : b_text_len b = b_text_len (p_builder s)).
-  { destruct Hi as (_ & _ & _ & ->). destruct Hi' as (_ & _ & _ & ->). reflexivity. }
-  cbn [p_builder]. split; [|lia].
-  exists consumed. cbn [p_stream p_builder p_errors].
-  split; [exact Hc|split; [exact Hi'|]]. rewrite Heq. exact He.
+  exists consumed. cbn [p_stream p_builder p_errors p_deferred].
+  split; [exact Hc|split; [exact Hi'|split; [exact He|exact Hd]]].
 Qed.
 
 Lemma pinv_add_err ts s sp :
-  pinv ts s -> span_ok (b_text_len (p_builder s)) sp ->
-  pinv ts (mkP (p_stream s) (p_builder s) (p_errors s ++ [sp])).
+  pinv ts s -> span_ok (N.of_nat (length (printed ts))) sp ->
+  pinv ts (mkP (p_stream s) (p_builder s) (p_errors s ++ [sp]) (p_deferred s)).
 Proof.
-  intros (consumed & Hc & Hi & He) Hsp. exists consumed. cbn [p_stream p_builder p_errors].
-  split; [exact Hc|split; [exact Hi|]]. apply Forall_app. split; [exact He|]. constructor; [exact Hsp|constructor].
+  intros (consumed & Hc & Hi & He & Hd) Hsp. exists consumed. cbn [p_stream p_builder p_errors p_deferred].
+  split; [exact Hc|split; [exact Hi|split; [|exact Hd]]].
+  apply Forall_app. split; [exact He|]. constructor; [exact Hsp|constructor].
 Qed.
 
 Lemma p_take_cons s s' t e rest :
   p_stream s = (t, e) :: rest -> p_take s = POk s' ->
   exists es,
     s' = mkP rest (mkB (b_text_len (p_builder s) + tok_len t) (b_token_index (p_builder s) + 1)
-                       (b_parents (p_builder s)) (b_children (p_builder s) ++ [GTok t])) es /\
-    (Forall (span_ok (b_text_len (p_builder s))) (p_errors s) ->
-     Forall (span_ok (b_text_len (p_builder s) + tok_len t)) es).
+                       (b_parents (p_builder s)) (b_children (p_builder s) ++ [GTok t])) es (p_deferred s) /\
+    (forall lim, b_text_len (p_builder s) + tok_len t <= lim ->
+       Forall (span_ok lim) (p_errors s) -> Forall (span_ok lim) es).
 Proof.
   intros Es H. unfold p_take in H. rewrite Es in H. unfold b_push in H.
   destruct e as [le|].
   - destruct (lex_err_span le t (b_text_len (p_builder s))) as [sp|] eqn:El; [|discriminate].
-    injection H as <-. eexists; split; [reflexivity|]. intros HF.
-    apply Forall_app. split.
-    + eapply span_mono; [|exact HF]. lia.
-    + constructor; [|constructor]. eapply lex_err_span_bound. exact El.
-  - injection H as <-. eexists; split; [reflexivity|]. intros HF.
-    eapply span_mono; [|exact HF]. lia.
+    injection H as <-. eexists; split; [reflexivity|]. intros lim Hlim HF.
+    apply Forall_app. split; [exact HF|].
+    constructor; [|constructor]. eapply span_ok_mono; [exact Hlim|]. eapply lex_err_span_bound. exact El.
+  - injection H as <-. eexists; split; [reflexivity|]. intros lim Hlim HF. exact HF.
 Qed.
 
 Lemma p_take_pinv ts s s' :
@@ -300,18 +316,20 @@ Proof.
   - unfold p_take in H. rewrite Es in H. injection H as <-.
     split; [exact Hp|split; [lia|]]. intros; discriminate.
   - destruct (p_take_cons _ _ _ _ _ Es H) as (es & -> & HF).
-    destruct Hp as (consumed & Hc & Hi & He). cbn [p_builder b_text_len].
+    pose proof (pinv_len_cons ts s t e rest Hp Es) as Hlim.
+    destruct Hp as (consumed & Hc & Hi & He & Hd). cbn [p_builder b_text_len].
     split; [|split; [lia|]].
-    + exists (consumed ++ [(t, e)]). cbn [p_stream p_builder p_errors b_text_len].
-      split; [|split].
-      * rewrite <- app_assoc. cbn [app]. rewrite <- Es. exact Hc.
+    + exists (consumed ++ [(t, e)]). cbn [p_stream p_builder p_errors p_deferred b_text_len].
+      split; [|split; [|split]].
+      * rewrite Es in Hc. cbn [app] in Hc. rewrite <- app_assoc. cbn [app]. exact Hc.
       * assert (Hst : b_step (OPush t) (p_builder s) =
                       BOk (mkB (b_text_len (p_builder s) + tok_len t) (b_token_index (p_builder s) + 1)
                                (b_parents (p_builder s)) (b_children (p_builder s) ++ [GTok t])))
           by reflexivity.
         pose proof (b_step_inv (OPush t) _ _ _ _ eq_refl Hst Hi) as Hi'. cbn [op_bytes op_leaves] in Hi'.
         rewrite !map_app, concat_app. cbn [map concat fst]. rewrite app_nil_r. exact Hi'.
-      * apply HF. exact He.
+      * exact (HF _ Hlim He).
+      * intros d Hd'. rewrite (Hd d Hd') in Es. discriminate.
     + intros t0 e0 rest0 E0. injection E0 as -> _ _. reflexivity.
 Qed.
 
@@ -326,89 +344,198 @@ Proof.
     destruct (IH _ _ H Hp1) as (Hp2 & Hm2). split; [exact Hp2|lia].
 Qed.
 
-Lemma p_recover_pinv ts n h s s' :
-  p_recover n h s = POk s' -> pinv ts s ->
-  pinv ts s' /\ b_text_len (p_builder s) <= b_text_len (p_builder s').
+Lemma p_recover_pinv ts n h s s' : p_recover n h s = POk s' -> pinv ts s -> pinv ts s'.
 Proof.
   intros H Hp. unfold p_recover in H.
   assert (Hsame : pinv ts (mkP (p_stream s) (p_builder s)
-                    (p_errors s ++ [(b_text_len (p_builder s), b_text_len (p_builder s))]))).
-  { apply pinv_add_err; [exact Hp|]. unfold span_ok; cbn [fst snd]. lia. }
+                    (p_errors s ++ [(b_text_len (p_builder s), b_text_len (p_builder s))]) (p_deferred s))).
+  { apply pinv_add_err; [exact Hp|]. pose proof (pinv_len ts s Hp) as HL.
+    unfold span_ok; cbn [fst snd]. unfold byte in *. lia. }
   destruct (peek_is_eof s) eqn:Ep.
-  - injection H as <-. cbn [p_builder]. split; [exact Hsame|lia].
+  - injection H as <-. exact Hsame.
   - destruct n as [|n'].
-    + destruct h; [discriminate|]. injection H as <-. cbn [p_builder]. split; [exact Hsame|lia].
+    + destruct h; [discriminate|]. injection H as <-. exact Hsame.
     + destruct (p_take_n (S n') s) as [s1|] eqn:Et; [|discriminate]. injection H as <-.
       unfold peek_is_eof in Ep. destruct (p_stream s) as [|[t e] rest] eqn:Es; [discriminate|].
       cbn [p_take_n] in Et. destruct (p_take s) as [s0|] eqn:E0; [|discriminate].
       destruct (p_take_pinv ts _ _ E0 Hp) as (Hp0 & Hm0 & Hlen).
       specialize (Hlen _ _ _ Es).
       destruct (p_take_n_pinv ts _ _ _ Et Hp0) as (Hp1 & Hm1).
-      cbn [p_builder]. split; [|lia].
+      pose proof (pinv_len ts s1 Hp1) as HL1.
       apply (pinv_add_err ts s1); [exact Hp1|]. unfold span_ok; cbn [fst snd].
-      unfold tok_len in Hlen. lia.
+      unfold tok_len in Hlen. unfold byte in *. lia.
 Qed.
 
-Lemma p_step_pinv ts o s s' :
-  p_step o s = POk s' -> pinv ts s ->
-  pinv ts s' /\ b_text_len (p_builder s) <= b_text_len (p_builder s').
+Lemma check_depth_pinv ts max s : pinv ts s -> pinv ts (check_depth max s).
+Proof.
+  intros Hp. unfold check_depth.
+  destruct ((p_depth s <=? max)%nat || peek_is_eof s) eqn:Ec; [exact Hp|].
+  apply orb_false_iff in Ec as [_ Ep]. unfold peek_is_eof in Ep.
+  destruct (p_stream s) as [|[t e] rest] eqn:Es; [discriminate|].
+  pose proof (pinv_len_cons ts s t e rest Hp Es) as Hlim. unfold tok_len in Hlim.
+  destruct Hp as (consumed & Hc & Hi & He & Hd).
+  assert (Hnone : p_deferred s = None).
+  { destruct (p_deferred s) as [d|] eqn:Edd; [|reflexivity]. rewrite (Hd d eq_refl) in Es. discriminate. }
+  exists consumed. cbn [p_stream p_builder p_errors p_deferred deferred_list app].
+  split; [|split; [exact Hi|split]].
+  - rewrite Es, Hnone in Hc. cbn [deferred_list] in Hc. rewrite app_nil_r in Hc. exact Hc.
+  - apply Forall_app; split; [exact He|]. constructor; [|constructor].
+    unfold span_ok; cbn [fst snd]. lia.
+  - intros; reflexivity.
+Qed.
+
+Lemma p_start_pinv ts max o s s' :
+  op_bytes o = [] -> op_leaves o = [] -> op_ok o = true ->
+  p_start max (b_step o (p_builder s)) s = POk s' -> pinv ts s -> pinv ts s'.
+Proof.
+  intros Hb Hl Hok H Hp. unfold p_start in H.
+  destruct (lift_b (b_step o (p_builder s)) s) as [s1|] eqn:E; [|discriminate]. injection H as <-.
+  apply check_depth_pinv. exact (lift_b_pinv ts o s s1 Hb Hl Hok E Hp).
+Qed.
+
+Lemma deferred_start_pinv ts s d :
+  pinv ts s -> p_deferred s = Some d -> pinv ts (mkP d (p_builder s) (p_errors s) None).
+Proof.
+  intros (consumed & Hc & Hi & He & Hd) E. exists consumed.
+  cbn [p_stream p_builder p_errors p_deferred deferred_list].
+  rewrite (Hd _ E), E in Hc. cbn [app deferred_list] in Hc.
+  split; [rewrite app_nil_r; exact Hc|split; [exact Hi|split; [exact He|intros; discriminate]]].
+Qed.
+
+Lemma push_deferred_pinv ts s s' : push_deferred s = POk s' -> pinv ts s -> pinv ts s'.
+Proof.
+  intros H Hp. unfold push_deferred in H. destruct (p_deferred s) as [d|] eqn:E.
+  - exact (proj1 (p_take_n_pinv ts _ _ _ H (deferred_start_pinv ts s d Hp E))).
+  - injection H as <-. exact Hp.
+Qed.
+
+Lemma p_end_node_pinv ts s s' : p_end_node s = POk s' -> pinv ts s -> pinv ts s'.
+Proof.
+  intros H Hp. unfold p_end_node in H.
+  destruct (if (p_depth s =? 1)%nat then push_deferred s else POk s) as [s1|] eqn:E1; [|discriminate].
+  assert (Hp1 : pinv ts s1).
+  { destruct (p_depth s =? 1)%nat; [exact (push_deferred_pinv ts s s1 E1 Hp)|].
+    injection E1 as <-. exact Hp. }
+  exact (lift_b_pinv ts OEnd s1 s' eq_refl eq_refl eq_refl H Hp1).
+Qed.
+
+Lemma p_step_pinv ts max o s s' : p_step max o s = POk s' -> pinv ts s -> pinv ts s'.
 Proof.
   intros H Hp. destruct o as [k| |cp k| |n h]; cbn [p_step] in H.
-  - exact (lift_b_pinv ts (OStart k) s s' eq_refl eq_refl eq_refl H Hp).
-  - exact (lift_b_pinv ts OEnd s s' eq_refl eq_refl eq_refl H Hp).
-  - exact (lift_b_pinv ts (OStartAt cp k) s s' eq_refl eq_refl eq_refl H Hp).
-  - destruct (p_take_pinv ts _ _ H Hp) as (H1 & H2 & _). split; assumption.
+  - exact (p_start_pinv ts max (OStart k) s s' eq_refl eq_refl eq_refl H Hp).
+  - exact (p_end_node_pinv ts s s' H Hp).
+  - exact (p_start_pinv ts max (OStartAt cp k) s s' eq_refl eq_refl eq_refl H Hp).
+  - exact (proj1 (p_take_pinv ts _ _ H Hp)).
   - exact (p_recover_pinv ts n h s s' H Hp).
 Qed.
 
-Lemma p_run_pinv ts ops : forall s s', p_run ops s = POk s' -> pinv ts s -> pinv ts s'.
+Lemma p_run_pinv ts max ops : forall s s', p_run max ops s = POk s' -> pinv ts s -> pinv ts s'.
 Proof.
   induction ops as [|o ops IH]; intros s s' H Hp; cbn [p_run] in H.
   - injection H as <-. exact Hp.
-  - destruct (p_step o s) as [s1|] eqn:E; [|discriminate].
-    destruct (p_step_pinv ts _ _ _ E Hp) as (Hp1 & _). exact (IH _ _ H Hp1).
+  - destruct (p_step max o s) as [s1|] eqn:E; [|discriminate].
+    exact (IH _ _ H (p_step_pinv ts max _ _ _ E Hp)).
 Qed.
 
 Lemma pinv_init ts : pinv ts (p_init ts).
 Proof.
-  exists []. unfold p_init; cbn [p_stream p_builder p_errors app map concat].
-  split; [reflexivity|split; [exact inv_init|constructor]].
+  exists []. unfold p_init; cbn [p_stream p_builder p_errors p_deferred deferred_list app map concat].
+  split; [apply app_nil_r|split; [exact inv_init|split; [constructor|intros; discriminate]]].
 Qed.
 
-Lemma parse_with_pinv ts ops root errs rest :
-  parse_with ops ts = Some (root, errs, rest) ->
-  exists s, pinv ts s /\ b_children (p_builder s) = [root] /\ p_errors s = errs /\ p_stream s = rest.
+(* what the invariant says when the builder holds exactly the root *)
+Lemma pinv_root ts s root : pinv ts s -> b_children (p_builder s) = [root] ->
+  exists consumed,
+    consumed ++ p_stream s ++ deferred_list (p_deferred s) = ts /\
+    bytes_of root = printed consumed /\ leaves root = map fst consumed /\ len_ok root = true.
 Proof.
-  unfold parse_with. intros H. destruct (p_run ops (p_init ts)) as [s|] eqn:E; [|discriminate].
+  intros (consumed & Hc & (H1 & H2 & H3 & _) & _ & _) Hch. exists consumed.
+  rewrite Hch in H1, H2, H3. cbn [map concat forallb] in H1, H2, H3.
+  rewrite app_nil_r in H1, H2. rewrite andb_true_r in H3. auto.
+Qed.
+
+Lemma parse_with_pinv max ts ops root errs rest d :
+  parse_with max ops ts = Some (root, errs, rest, d) ->
+  exists s, pinv ts s /\ b_children (p_builder s) = [root] /\ p_errors s = errs /\
+            p_stream s = rest /\ p_deferred s = d.
+Proof.
+  unfold parse_with. intros H. destruct (p_run max ops (p_init ts)) as [s|] eqn:E; [|discriminate].
   destruct (b_end (p_builder s)) as [r|] eqn:Eb; [|discriminate].
-  injection H as -> <- <-. exists s. apply b_end_some in Eb.
-  split; [exact (p_run_pinv ts _ _ _ E (pinv_init ts))|auto].
+  injection H as -> <- <- <-. exists s. apply b_end_some in Eb.
+  split; [exact (p_run_pinv ts max _ _ _ E (pinv_init ts))|auto].
 Qed.
 
 Lemma parse_lossless_gen :
-  forall ts ops root errs rest, parse_with ops ts = Some (root, errs, rest) ->
-    bytes_of root ++ printed rest = printed ts /\
+  forall max ts ops root errs rest d, parse_with max ops ts = Some (root, errs, rest, d) ->
+    bytes_of root ++ printed rest ++ printed (deferred_list d) = printed ts /\
     len_ok root = true /\
-    (rest = [] -> leaves root = map fst ts).
+    (rest = [] -> d = None -> leaves root = map fst ts).
 Proof.
-  intros ts ops root errs rest H.
-  destruct (parse_with_pinv _ _ _ _ _ H) as (s & (consumed & Hc & (H1 & H2 & H3 & H4) & He) & Hch & _ & Hr).
-  rewrite Hch in H1, H2, H3. cbn [map concat forallb] in H1, H2, H3.
-  rewrite app_nil_r in H1, H2. rewrite andb_true_r in H3. rewrite Hr in Hc.
+  intros max ts ops root errs rest d H.
+  destruct (parse_with_pinv _ _ _ _ _ _ _ H) as (s & Hp & Hch & _ & Hr & Hd).
+  destruct (pinv_root ts s root Hp Hch) as (consumed & Hc & H1 & H2 & H3).
+  rewrite Hr, Hd in Hc.
   split; [|split; [exact H3|]].
-  - rewrite H1, <- Hc, map_app, concat_app. reflexivity.
-  - intros ->. rewrite app_nil_r in Hc. rewrite H2, Hc. reflexivity.
+  - rewrite H1, <- Hc, !printed_app. reflexivity.
+  - intros -> ->. cbn [deferred_list app] in Hc. rewrite app_nil_r in Hc. rewrite H2, Hc. reflexivity.
 Qed.
 
 Lemma error_spans_inside_gen :
-  forall ts ops root errs rest, parse_with ops ts = Some (root, errs, rest) ->
+  forall max ts ops root errs rest d, parse_with max ops ts = Some (root, errs, rest, d) ->
     Forall (fun sp : N * N => fst sp <= snd sp /\ snd sp <= N.of_nat (length (printed ts))) errs.
 Proof.
-  intros ts ops root errs rest H.
-  destruct (parse_with_pinv _ _ _ _ _ H) as (s & (consumed & Hc & (H1 & H2 & H3 & H4) & He) & Hch & Herr & Hr).
-  rewrite Herr in He. eapply Forall_impl; [|exact He].
-  intros sp [Ha Hb]. split; [exact Ha|].
-  rewrite <- Hc, map_app, concat_app, app_length. unfold byte in *. lia.
+  intros max ts ops root errs rest d H.
+  destruct (parse_with_pinv _ _ _ _ _ _ _ H) as (s & (consumed & _ & _ & He & _) & _ & Herr & _).
+  rewrite Herr in He. exact He.
+Qed.
+
+(* the bail-out of check_nesting_depth loses nothing: closing the root pushes the deferred tokens *)
+Lemma p_take_shape s s1 :
+  p_take s = POk s1 -> p_stream s1 = tl (p_stream s) /\ p_deferred s1 = p_deferred s.
+Proof.
+  unfold p_take. destruct (p_stream s) as [|[t e] rest] eqn:Es.
+  - intros H; injection H as <-. rewrite Es. auto.
+  - unfold b_push. destruct e as [le|];
+      [destruct (lex_err_span le t (b_text_len (p_builder s))); [|discriminate]|];
+      intros H; injection H as <-; auto.
+Qed.
+
+Lemma p_take_n_drain n : forall s s',
+  p_take_n n s = POk s' -> (length (p_stream s) <= n)%nat ->
+  p_stream s' = [] /\ p_deferred s' = p_deferred s.
+Proof.
+  induction n as [|n IH]; intros s s' H Hl; cbn [p_take_n] in H.
+  - injection H as <-. destruct (p_stream s); [auto|cbn [length] in Hl; lia].
+  - destruct (p_take s) as [s1|] eqn:E; [|discriminate].
+    destruct (p_take_shape _ _ E) as [Hs Hd].
+    assert (Hl1 : (length (p_stream s1) <= n)%nat).
+    { rewrite Hs. destruct (p_stream s); cbn [tl length] in *; lia. }
+    destruct (IH _ _ H Hl1) as [H1 H2]. rewrite H2, Hd. auto.
+Qed.
+
+Lemma parse_bail_gen :
+  forall max ts ops s1 dts s2 root,
+    p_run max ops (p_init ts) = POk s1 ->
+    p_deferred s1 = Some dts -> p_depth s1 = 1%nat ->
+    p_step max PEnd s1 = POk s2 -> b_end (p_builder s2) = Some root ->
+    p_stream s2 = [] /\ p_deferred s2 = None /\ bytes_of root = printed ts /\
+    leaves root = map fst ts /\ len_ok root = true.
+Proof.
+  intros max ts ops s1 dts s2 root Hrun Hdef Hdepth Hstep Hend.
+  pose proof (p_run_pinv ts max ops _ _ Hrun (pinv_init ts)) as Hp1.
+  pose proof (p_step_pinv ts max PEnd _ _ Hstep Hp1) as Hp2.
+  apply b_end_some in Hend.
+  destruct (pinv_root ts s2 root Hp2 Hend) as (consumed & Hc & H1 & H2 & H3).
+  assert (Hsd : p_stream s2 = [] /\ p_deferred s2 = None).
+  { cbn [p_step] in Hstep. unfold p_end_node in Hstep. rewrite Hdepth in Hstep. cbn [Nat.eqb] in Hstep.
+    unfold push_deferred in Hstep. rewrite Hdef in Hstep.
+    destruct (p_take_n (length dts) (mkP dts (p_builder s1) (p_errors s1) None)) as [s'|] eqn:Et;
+      [|discriminate].
+    destruct (p_take_n_drain _ _ _ Et (le_n _)) as [Hs Hd]. cbn [p_deferred] in Hd.
+    destruct (b_end_node (p_builder s')) as [b|]; [|discriminate]. cbn [lift_b] in Hstep.
+    injection Hstep as <-. cbn [p_stream p_deferred]. auto. }
+  destruct Hsd as [Hs Hd]. rewrite Hs, Hd in Hc. cbn [deferred_list app] in Hc. rewrite app_nil_r in Hc.
+  subst consumed. auto.
 Qed.
 
 (* ---------------------------------------------------------------------------------------------- *)
@@ -915,42 +1042,75 @@ Qed.
 From RH Require Import Lex.SynLexerProofs.
 
 Lemma parse_lossless :
-  forall kws bs ts ops root errs rest,
-    token_stream kws bs = Some ts -> parse_with ops ts = Some (root, errs, rest) ->
-    bytes_of root ++ printed rest = bs /\
+  forall max kws bs ts ops root errs rest d,
+    token_stream kws bs = Some ts -> parse_with max ops ts = Some (root, errs, rest, d) ->
+    bytes_of root ++ printed rest ++ printed (deferred_list d) = bs /\
     len_ok root = true /\
-    (rest = [] -> bytes_of root = bs /\ leaves root = map fst ts /\ glen root = N.of_nat (length bs)).
+    (rest = [] -> d = None ->
+       bytes_of root = bs /\ leaves root = map fst ts /\ glen root = N.of_nat (length bs)).
 Proof.
-  intros kws bs ts ops root errs rest Hts Hp.
+  intros max kws bs ts ops root errs rest d Hts Hp.
   destruct (token_stream_lossless kws bs) as (ts' & Hts' & Hpr & _).
   rewrite Hts in Hts'. inversion Hts'; subst ts'; clear Hts'.
-  destruct (parse_lossless_gen ts ops root errs rest Hp) as (Hb & Hok & Hl).
+  destruct (parse_lossless_gen max ts ops root errs rest d Hp) as (Hb & Hok & Hl).
   rewrite Hpr in Hb.
   split; [exact Hb|]. split; [exact Hok|].
-  intros Hr. subst rest. cbn [map concat] in Hb. rewrite app_nil_r in Hb.
+  intros Hr Hd. subst rest d. cbn [deferred_list map concat app] in Hb. rewrite app_nil_r in Hb.
   split; [exact Hb|]. split; [apply Hl; reflexivity|].
   rewrite (glen_bytes root Hok), Hb. reflexivity.
 Qed.
 
 Lemma error_spans_inside :
-  forall kws bs ts ops root errs rest,
-    token_stream kws bs = Some ts -> parse_with ops ts = Some (root, errs, rest) ->
+  forall max kws bs ts ops root errs rest d,
+    token_stream kws bs = Some ts -> parse_with max ops ts = Some (root, errs, rest, d) ->
     Forall (fun sp : N * N => fst sp <= snd sp /\ snd sp <= N.of_nat (length bs)) errs.
 Proof.
-  intros kws bs ts ops root errs rest Hts Hp.
+  intros max kws bs ts ops root errs rest d Hts Hp.
   destruct (token_stream_lossless kws bs) as (ts' & Hts' & Hpr & _).
   rewrite Hts in Hts'. inversion Hts'; subst ts'; clear Hts'.
-  pose proof (error_spans_inside_gen ts ops root errs rest Hp) as H.
+  pose proof (error_spans_inside_gen max ts ops root errs rest d Hp) as H.
   rewrite Hpr in H. exact H.
+Qed.
+
+Lemma parse_lossless_bail :
+  forall max kws bs ts ops s1 dts s2 root,
+    token_stream kws bs = Some ts -> p_run max ops (p_init ts) = POk s1 ->
+    p_deferred s1 = Some dts -> p_depth s1 = 1%nat ->
+    p_step max PEnd s1 = POk s2 -> b_end (p_builder s2) = Some root ->
+    p_stream s2 = [] /\ p_deferred s2 = None /\ bytes_of root = bs /\ leaves root = map fst ts /\
+    len_ok root = true /\ glen root = N.of_nat (length bs).
+Proof.
+  intros max kws bs ts ops s1 dts s2 root Hts Hrun Hdef Hdepth Hstep Hend.
+  destruct (token_stream_lossless kws bs) as (ts' & Hts' & Hpr & _).
+  rewrite Hts in Hts'. inversion Hts'; subst ts'; clear Hts'.
+  destruct (parse_bail_gen max ts ops s1 dts s2 root Hrun Hdef Hdepth Hstep Hend)
+    as (H1 & H2 & H3 & H4 & H5).
+  rewrite Hpr in H3.
+  split; [exact H1|split; [exact H2|split; [exact H3|split; [exact H4|split; [exact H5|]]]]].
+  rewrite (glen_bytes root H5), H3. reflexivity.
 Qed.
 
 Lemma ex_parse :
   exists ts root, token_stream kw2008 [97; 32; 36; 32; 98; 32; 47; 42] = Some ts /\
-    parse_with [PStart 1; PTake; PStart 2; PRecover 2 false; PEnd; PTake; PEnd] ts
-      = Some (root, [(2, 3); (2, 5); (6, 8)], []) /\
+    parse_with 1024 [PStart 1; PTake; PStart 2; PRecover 2 false; PEnd; PTake; PEnd] ts
+      = Some (root, [(2, 3); (2, 5); (6, 8)], [], None) /\
     bytes_of root = [97; 32; 36; 32; 98; 32; 47; 42].
 Proof.
   eexists. eexists. split; [vm_compute; reflexivity|]. split; vm_compute; reflexivity.
+Qed.
+
+Lemma ex_bail :
+  exists ts root s1, token_stream kw2008 [97; 32; 98; 32; 36; 32; 100] = Some ts /\
+    parse_with 2 [PStart 1; PTake; PStart 2; PTake; PStart 3; PTake; PEnd; PEnd; PEnd] ts
+      = Some (root, [(4, 5); (4, 5)], [], None) /\
+    bytes_of root = [97; 32; 98; 32; 36; 32; 100] /\
+    p_run 2 [PStart 1; PTake; PStart 2; PTake; PStart 3; PTake; PEnd; PEnd] (p_init ts) = POk s1 /\
+    p_depth s1 = 1%nat /\ p_deferred s1 <> None.
+Proof.
+  eexists. eexists. eexists.
+  split; [vm_compute; reflexivity|]. split; [vm_compute; reflexivity|].
+  split; [vm_compute; reflexivity|]. split; [vm_compute; reflexivity|].
+  split; [vm_compute; reflexivity|]. vm_compute. intros H; discriminate H.
 Qed.
 
 (* F25: with debug assertions the contract violation is a panic, without them an inverted span *)
